@@ -199,6 +199,13 @@ def _oracle_run(op):
         with Effects(root) as fx:
             r = run_op(op, Ctx())
         r.pop("mutated", None)
+        if op.get("save"):
+            # what a fresh process writes as its report(s): base name -> digest of the bytes
+            made = {}
+            for rel, ent in fx.after.items():
+                if rel.startswith("cwd/") and ent[0] == "f" and fx.before.get(rel) != ent:
+                    made[rel.rsplit("/", 1)[-1]] = base.digest(ent[1])
+            r["files"] = made
         return r
     finally:
         base.rm_tree(root)
